@@ -96,6 +96,9 @@ type EvmChain struct {
 }
 
 type Options struct {
+	// EpochShift moves the genesis time and every block time of the chain by this many seconds (default epoch: T0,
+	// November 2023). State transitions must not depend on where the chain's clock stands relative to the machine's.
+	EpochShift int64
 	// UnpublishedChains: remote chains that are activated without any validator-set snapshot recorded as published
 	// on them (the state after importing exported chain state: just-in-time validator-set updates fail there).
 	UnpublishedChains map[string]bool
@@ -267,7 +270,7 @@ func New(o Options) (*Chain, error) {
 	if err != nil {
 		return nil, err
 	}
-	if _, err := app.InitChain(&abci.RequestInitChain{ChainId: ChainID, ConsensusParams: consensusParams(), AppStateBytes: stateBytes, Time: time.Unix(T0, 0), InitialHeight: o.InitialHeight}); err != nil {
+	if _, err := app.InitChain(&abci.RequestInitChain{ChainId: ChainID, ConsensusParams: consensusParams(), AppStateBytes: stateBytes, Time: time.Unix(T0+o.EpochShift, 0), InitialHeight: o.InitialHeight}); err != nil {
 		c.Close()
 		return nil, fmt.Errorf("InitChain: %w", err)
 	}
@@ -303,9 +306,14 @@ func (c *Chain) Restart() {
 
 func BlockTime(h int64) time.Time { return time.Unix(T0+h*BlockSecs, 0).UTC() }
 
+// BlockTimeOf is BlockTime for this chain (Options.EpochShift moves all its block times by a constant).
+func (c *Chain) BlockTimeOf(h int64) time.Time {
+	return BlockTime(h).Add(time.Duration(c.Opts.EpochShift) * time.Second)
+}
+
 // Ctx is an uncached context on the committed state, positioned at the next block (for fixtures and reads).
 func (c *Chain) Ctx() sdk.Context {
-	return c.App.NewUncachedContext(false, cmtproto.Header{ChainID: ChainID, Height: c.H, Time: BlockTime(c.H)})
+	return c.App.NewUncachedContext(false, cmtproto.Header{ChainID: ChainID, Height: c.H, Time: c.BlockTimeOf(c.H)})
 }
 
 // ReadCtx: read-only view of committed state at the last committed height.
@@ -324,7 +332,7 @@ func (c *Chain) Block(txs ...[]byte) (res *abci.ResponseFinalizeBlock, err error
 			}
 		}
 	}()
-	res, err = c.App.FinalizeBlock(&abci.RequestFinalizeBlock{Height: c.H, Time: BlockTime(c.H), Txs: txs})
+	res, err = c.App.FinalizeBlock(&abci.RequestFinalizeBlock{Height: c.H, Time: c.BlockTimeOf(c.H), Txs: txs})
 	if err != nil {
 		return nil, fmt.Errorf("FinalizeBlock h=%d: %w", c.H, err)
 	}
